@@ -301,6 +301,79 @@ def run_shard(cfg):
         if len(samples) < 2:
             samples.append({"kind": "real-cost", "password": short(p), "hash": h,
                             "neighbours": [(k, short(q)) for k, q in nb[:2]]})
+    # ---- the key derivation itself fails (not enough memory for scrypt - memory pressure, a resource limit, a record with legal
+    #      but huge cost parameters): injected at the boundary to the cryptography package.  Whatever verify_password does then -
+    #      let the error out, raise its own - it does not say True, for no password
+    import mpgameserver.auth as _A
+    real_scrypt = _A.scrypt.Scrypt
+    fault = {"exc": None}
+
+    class FailingScrypt(object):
+        def __init__(self, *a, **kw):
+            self._real = real_scrypt(*a, **kw)
+
+        def derive(self, km):
+            if fault["exc"] is not None:
+                raise fault["exc"]
+            return self._real.derive(km)
+
+        def verify(self, km, expected):
+            if fault["exc"] is not None:
+                raise fault["exc"]
+            return self._real.verify(km, expected)
+    h_ok = Auth.hash_password(b"correct horse")
+    counters.inc("kdf_calls")
+    _A.scrypt.Scrypt = FailingScrypt
+    try:
+        for exc in (MemoryError("Not enough memory to derive key"), OSError(12, "Cannot allocate memory"), RuntimeError("scrypt backend failure")):
+            for pw in (b"correct horse", b"wrong", b""):
+                fault["exc"] = exc
+                try:
+                    res = Auth.verify_password(pw, h_ok)
+                    if res is True:
+                        viol("true-when-kdf-fails", "the key derivation raised %r; verify_password(%r, valid hash) returned True" % (exc, pw), {"p": short(pw)})
+                    else:
+                        counters.inc("kdf_failure_not_true")
+                except BaseException:
+                    counters.inc("kdf_failure_not_true")
+                finally:
+                    fault["exc"] = None
+        # control: the wrapper is transparent
+        if Auth.verify_password(b"correct horse", h_ok) is not True or Auth.verify_password(b"wrong", h_ok) is not False:
+            viol("right-password-rejected", "control with the fault injector switched off failed", {})
+        counters.inc("kdf_calls", 2)
+    finally:
+        _A.scrypt.Scrypt = real_scrypt
+    # ---- fresh salts in forked workers: two children of this process hash the same password at once; their salts differ from each
+    #      other and from the parent's
+    if cfg["shard"] % 3 == 0:
+        import os as _os
+        outs = []
+        for _k in range(2):
+            rfd, wfd = _os.pipe()
+            pid = _os.fork()
+            if pid == 0:
+                try:
+                    _os.close(rfd)
+                    _os.write(wfd, Auth.hash_password(b"same password").encode())
+                finally:
+                    _os._exit(0)
+            _os.close(wfd)
+            data = b""
+            while True:
+                chunk = _os.read(rfd, 4096)
+                if not chunk:
+                    break
+                data += chunk
+            _os.close(rfd)
+            _os.waitpid(pid, 0)
+            outs.append(data.decode())
+        outs.append(Auth.hash_password(b"same password"))
+        counters.inc("kdf_calls", 3)
+        salts = [ref_record(h_)[3][:Auth.SALT_LENGTH] if ref_record(h_) else None for h_ in outs]
+        counters.inc("forked_hashes_checked")
+        if None in salts or len(set(salts)) != 3:
+            viol("salt-reused", "the same password hashed in two forked children and in the parent: salts %s" % ([s_.hex() if s_ else None for s_ in salts],), {"hashes": outs})
     # ---- look-alike pairs (one per shard at real cost, both directions)
     pa, pb = LOOKALIKES[(cfg["shard"] + cfg["seed"]) % len(LOOKALIKES)]
     for p_, q_ in ((pa, pb), (pb, pa)):
@@ -458,7 +531,7 @@ def finish(tier, seed, results):
     m = merge(results)
     inconclusive = []
     need(m["counters"], ["right_password_checked", "wrong_password_checked", "fresh_salt_checked",
-                         "corruptions", "malformed_raised", "control_true", "control_false", "kdf_calls", "configurations_ok", "lookalike_pairs_checked"], inconclusive)
+                         "corruptions", "malformed_raised", "control_true", "control_false", "kdf_calls", "configurations_ok", "lookalike_pairs_checked", "kdf_failure_not_true", "forked_hashes_checked"], inconclusive)
     cov = {
         "evaluations": m["evaluations"],
         "distinct_nontrivial": m["distinct_nontrivial"],
